@@ -36,6 +36,7 @@ declare -A MAP=(
  ["two features concatenations that are summed"]="C09"
  ["whatever way the axis is spelled"]="C09"
  ["fold the dilation into the weights of grouped"]="C14"
+ ["not fused with the following layer when it is also invoked"]="C07"
 )
 fail=0
 git -C /repo log --format='%h %s' bfd6014..HEAD | grep ' fix:' | while read h msg; do
